@@ -11,6 +11,13 @@ theorem InvG_emit {sl st} {s : State} {c : Conn} (hI : InvG sl st s) (h : (s.con
   rw [emit_open h]
   exact hI.congr' rfl rfl rfl rfl (fun _ => ⟨rfl, rfl, rfl⟩)
 
+/-- A reply that carries no element changes `out` at most (whatever the state of the peer). -/
+theorem emit_plain (s : State) (c : Conn) {r : Reply} (hr : r.elem? = none) : ∃ o, emit s c r = { s with out := o } := by
+  unfold emit
+  split
+  · exact ⟨s.out, by simp [hr]⟩
+  · exact ⟨_, rfl⟩
+
 theorem InvG_setConn_tx {sl st} {s : State} (hI : InvG sl st s) (c : Conn) (f : ConnSt → ConnSt)
     (hf : ∀ cs, (f cs).blocked = cs.blocked ∧ (f cs).gone = cs.gone ∧ (f cs).peerClosed = cs.peerClosed) :
     InvG sl st (setConn s c f) := by
@@ -106,8 +113,8 @@ theorem InvG_register {s : State} (hI : InvF s) (c : Conn) (ks : List Key) (dl :
   · intro c' hb
     by_cases hcc : c' = c
     · subst hcc
-      rw [setBlocked_gone, setBlocked_peerClosed]
-      exact ⟨hc0, hcg, hcp⟩
+      rw [setBlocked_gone]
+      exact ⟨hc0, hcg⟩
     · rw [hconn _ hcc] at hb ⊢
       exact hI.alive c' hb
   · rw [setBlocked_wakeQ]; exact hI.wakeConns
@@ -298,18 +305,59 @@ theorem InvG_notifyN (k : Key) : ∀ (n : Nat) (s : State), InvG (slackAt k n) n
 theorem countP_filter_le {α : Type} (p f : α → Bool) (l : List α) : (l.filter f).countP p ≤ l.countP p :=
   List.Sublist.countP_le List.filter_sublist
 
-theorem InvG_wakeOne {sl : Key → Nat} (q : Quirks) (hq : q.unregisterAllOnServe = true) (s : State) (hI : InvG sl noStale s) :
-    InvG sl noStale (wakeOne q s) := by
+/-- Under the invariant the request at the head of the wake queue names a client blocked on its key. -/
+theorem InvG.target_ok {sl st} {s : State} (hI : InvG sl st s) {w : Wake} {rest : List Wake} (hw : s.wakeQ = w :: rest) :
+    wakeTargetOk { s with wakeQ := rest } w = true := by
+  obtain ⟨b, hb, hkb, _⟩ := hI.wakeOk w (by rw [hw]; simp)
+  obtain ⟨h0, hg⟩ := hI.alive w.conn (by rw [hb]; simp)
+  have hl : isBlockedLive { s with wakeQ := rest } w.conn = true := isBlockedLive_of (s := { s with wakeQ := rest }) h0 hg hb
+  simp [wakeTargetOk, hl, hb, hkb]
+
+theorem wakeOne_blocked_or_none (q : Quirks) (s : State) (c : Conn) :
+    ((wakeOne q s).conns c).blocked = (s.conns c).blocked ∨ ((wakeOne q s).conns c).blocked = none := by
+  unfold wakeOne
+  split
+  · exact .inl rfl
+  · next w rest _ =>
+    simp only []
+    split
+    · rw [notify_conns]; exact .inl rfl
+    split
+    · exact .inl rfl
+    · split
+      · have h : ∀ (t : State), (t.conns = s.conns) →
+            ((setBlocked t w.conn none).conns c).blocked = (s.conns c).blocked ∨ ((setBlocked t w.conn none).conns c).blocked = none := by
+          intro t ht
+          by_cases hc : c = w.conn
+          · by_cases h0 : w.conn = 0
+            · left; unfold setBlocked; simp [h0, ht]
+            · right; rw [hc]; exact setBlocked_blocked_self _ _ _ h0
+          · left; rw [setBlocked_conns_ne _ _ _ _ hc, ht]
+        split
+        · exact h _ (by simp)
+        · exact h _ (by simp)
+      · exact .inl rfl
+
+theorem Calm_wakeOne (q : Quirks) (s : State) (h : Calm s) : Calm (wakeOne q s) := by
+  intro c hb
+  rw [(life_wakeOne q s c).2]
+  rcases wakeOne_blocked_or_none q s c with h' | h'
+  · rw [h'] at hb; exact h c hb
+  · exact absurd h' hb
+
+theorem InvG_wakeOne {sl : Key → Nat} (q : Quirks) (hq : q.unregisterAllOnServe = true) (s : State) (hI : InvG sl noStale s)
+    (hcalm : Calm s) : InvG sl noStale (wakeOne q s) := by
   unfold wakeOne
   split
   · exact hI
   · next w rest hw =>
     have hwmem : w ∈ s.wakeQ := by rw [hw]; simp
     obtain ⟨b, hb, hkb, hop⟩ := hI.wakeOk w hwmem
-    obtain ⟨h0, hg, hpc⟩ := hI.alive w.conn (by rw [hb]; simp)
+    obtain ⟨h0, hg⟩ := hI.alive w.conn (by rw [hb]; simp)
+    have hpc : (s.conns w.conn).peerClosed = false := hcalm w.conn (by rw [hb]; simp)
     have hWs : ∀ k', cntW s k' = rest.countP (fun w' => w'.key == k') + (if (w.key == k') = true then 1 else 0) := by
       intro k'; unfold cntW; rw [hw, List.countP_cons]
-    simp only []
+    simp only [hI.target_ok hw, Bool.true_eq_false, and_false, if_false]
     split
     · next hpe =>
       exfalso
@@ -385,7 +433,7 @@ theorem InvG_wakeOne {sl : Key → Nat} (q : Quirks) (hq : q.unregisterAllOnServ
       · intro c hc
         have hc : ((setBlocked _ w.conn none).conns c).blocked ≠ none := hc
         have hcx : c ≠ w.conn := fun e => hc (e ▸ hxb)
-        show c ≠ 0 ∧ ((setBlocked _ w.conn none).conns c).gone = false ∧ ((setBlocked _ w.conn none).conns c).peerClosed = false
+        show c ≠ 0 ∧ ((setBlocked _ w.conn none).conns c).gone = false
         rw [hconn _ hcx] at hc ⊢
         exact hI.alive c hc
       · show ((setBlocked _ w.conn none).wakeQ.map (·.conn)).Nodup
@@ -420,14 +468,21 @@ theorem InvG_wakeOne {sl : Key → Nat} (q : Quirks) (hq : q.unregisterAllOnServ
       · show (setBlocked _ w.conn none).lost = []
         rw [setBlocked_lost]; exact hI.lost
 
-theorem InvF_wakeOne (q : Quirks) (hq : q.unregisterAllOnServe = true) (s : State) (hI : InvF s) :
-    InvF (wakeOne q s) := InvG_wakeOne q hq s hI
+theorem InvF_wakeOne (q : Quirks) (hq : q.unregisterAllOnServe = true) (s : State) (hI : InvF s) (hcalm : Calm s) :
+    InvF (wakeOne q s) := InvG_wakeOne q hq s hI hcalm
 
-theorem InvF_iter_wakeOne (q : Quirks) (hq : q.unregisterAllOnServe = true) : ∀ n s, InvF s → InvF (iter (wakeOne q) n s) := by
+/-- A drain of at least as many steps as there are requests: the invariant holds, the state stays calm, the queue is empty. -/
+theorem InvF_iter_wakeOne (q : Quirks) (hq : q.unregisterAllOnServe = true) :
+    ∀ n s, InvF s → Calm s → s.wakeQ.length ≤ n →
+      InvF (iter (wakeOne q) n s) ∧ Calm (iter (wakeOne q) n s) ∧ (iter (wakeOne q) n s).wakeQ = [] := by
   intro n
   induction n with
-  | zero => intro s h; exact h
-  | succ n ih => intro s h; exact ih _ (InvF_wakeOne q hq s h)
+  | zero => intro s h hc hl; exact ⟨h, hc, List.length_eq_zero_iff.mp (by simp only [iter]; omega)⟩
+  | succ n ih =>
+    intro s h hc hl
+    simp only [iter]
+    refine ih _ (InvF_wakeOne q hq s h hc) (Calm_wakeOne q s hc) ?_
+    rw [wakeOne_wakeQ q s (fun w rest hw => h.target_ok hw), List.length_tail]; omega
 
 /-! ## A pop between commands (empty wake queue) -/
 
@@ -494,16 +549,17 @@ theorem InvScan_expireOne (now : Nat) (s : State) (hI : InvG noSlack (staleAt no
       exact List.Sublist.append ((List.Sublist.append (List.Sublist.refl _) (List.sublist_cons_self e b)).map _) (List.Sublist.refl _)
     rcases hI.regOk e.1 e.2 hemem with ⟨b0, hb0, _, hdl, _⟩ | ⟨hnone, _⟩
     · -- the entry's connection is still blocked: it is answered nil and released
-      obtain ⟨h0, hg, hpc⟩ := hI.alive e.2.conn (by rw [hb0]; simp)
+      obtain ⟨h0, hg⟩ := hI.alive e.2.conn (by rw [hb0]; simp)
       have hlive : isBlockedLive { s with registry := reg' } e.2.conn = true :=
         isBlockedLive_of (s := { s with registry := reg' }) h0 hg hb0
       unfold timeoutConn
       simp only [hlive, if_true]
-      have hopen : (({ s with registry := reg' } : State).conns e.2.conn).peerClosed = false := hpc
-      rw [emit_open hopen]
-      have hconn : ∀ c, c ≠ e.2.conn → (setBlocked { s with registry := reg', out := s.out ++ [(e.2.conn, Reply.nilArr)] } e.2.conn none).conns c = s.conns c :=
+      -- the nil is written to the socket, or into the void when the peer has gone unnoticed: `out` at most changes
+      obtain ⟨o, ho⟩ := emit_plain { s with registry := reg' } e.2.conn (r := .nilArr) rfl
+      rw [ho]
+      have hconn : ∀ c, c ≠ e.2.conn → (setBlocked { s with registry := reg', out := o } e.2.conn none).conns c = s.conns c :=
         fun c hc => setBlocked_conns_ne _ _ _ _ hc
-      have hxb : ((setBlocked { s with registry := reg', out := s.out ++ [(e.2.conn, Reply.nilArr)] } e.2.conn none).conns e.2.conn).blocked = none :=
+      have hxb : ((setBlocked { s with registry := reg', out := o } e.2.conn none).conns e.2.conn).blocked = none :=
         setBlocked_blocked_self _ _ _ h0
       refine ⟨?_, ?_, ?_, ?_, ?_, ?_, ?_, ?_, ?_⟩
       · intro k' w' h
@@ -612,15 +668,15 @@ theorem InvF_timeouts (now : Nat) (s : State) (hI : InvF s) (hquiet : s.wakeQ = 
   InvScan_finish (InvScan_iter now _ s (hI.toScan now) hquiet)
     (iter_expireOne_count now s.registry.length s List.countP_le_length)
 
-/-! ## Hang-up and reaping of a connection that is not blocked -/
+/-! ## Hang-up (blocked or not), reaping -/
 
-theorem InvF_hangup (s : State) (c : Conn) (hI : InvF s) (hnb : (s.conns c).blocked = none) :
+theorem InvF_hangup (s : State) (c : Conn) (hI : InvF s) :
     InvF (setConn s c fun cs => { cs with peerClosed := true }) := by
   refine hI.congr_life rfl rfl rfl rfl ?_
   intro c'
   by_cases hcc : c' = c
   · subst hcc
-    refine ⟨by simp [setConn], fun h => absurd hnb h⟩
+    exact ⟨by simp [setConn], fun _ => by simp [setConn]⟩
   · simp [setConn, hcc]
 
 theorem InvF_reap (s : State) (c : Conn) (hI : InvF s) (hnb : (s.conns c).blocked = none) :
@@ -638,5 +694,53 @@ theorem InvF_reap (s : State) (c : Conn) (hI : InvF s) (hnb : (s.conns c).blocke
   · subst hcc
     refine ⟨by simp [setConn, hnb], fun h => absurd hnb h⟩
   · simp [setConn, hcc]
+
+/-- A client is unblocked and unregistered everywhere (wake queue empty). -/
+theorem InvF_unreg {s t : State} (c : Conn) (hI : InvF s) (hquiet : s.wakeQ = [])
+    (hr : t.registry = s.registry.filter fun x => x.2.conn != c) (hw : t.wakeQ = s.wakeQ)
+    (hs : t.store = s.store) (hl : t.lost = s.lost)
+    (hconn : ∀ c', c' ≠ c → t.conns c' = s.conns c') (hself : (t.conns c).blocked = none) : InvF t := by
+  refine ⟨?_, ?_, ?_, ?_, ?_, ?_, ?_, ?_, by rw [hl]; exact hI.lost⟩
+  · intro k w h
+    rw [hr] at h
+    obtain ⟨hm, hne⟩ := List.mem_filter.mp h
+    have hne : w.conn ≠ c := by simpa using hne
+    rw [hconn _ hne]
+    exact hI.regOk k w hm
+  · intro w h
+    rw [hw, hquiet] at h; cases h
+  · refine List.Nodup.sublist ?_ hI.slots
+    unfold slotsOf
+    rw [hr, hw]
+    exact List.Sublist.append (List.filter_sublist.map _) (List.Sublist.refl _)
+  · intro c' b hb k hk
+    have hcc : c' ≠ c := by intro e; rw [e, hself] at hb; cases hb
+    rw [hconn _ hcc] at hb
+    rcases mem_slots_iff.mp (hI.cover c' b hb k hk) with ⟨w, hw', hwc⟩ | ⟨w, hw', _, _⟩
+    · apply mem_slots_iff.mpr
+      left
+      exact ⟨w, by rw [hr]; exact List.mem_filter.mpr ⟨hw', by simp [hwc, hcc]⟩, hwc⟩
+    · rw [hquiet] at hw'; cases hw'
+  · intro c' b hb
+    have hcc : c' ≠ c := by intro e; rw [e, hself] at hb; cases hb
+    rw [hconn _ hcc] at hb
+    exact hI.keysNe c' b hb
+  · intro c' hb
+    have hcc : c' ≠ c := fun e => hb (e ▸ hself)
+    rw [hconn _ hcc] at hb ⊢
+    exact hI.alive c' hb
+  · rw [hw]; exact hI.wakeConns
+  · intro k
+    have hc := hI.counts k
+    have hR : (s.registry.filter fun x => x.2.conn != c).countP (keyIs k) ≤ cntR s k := countP_filter_le _ _ _
+    unfold cntW cntL cntR at *
+    rw [hr, hw, hs]
+    exact ⟨hc.1, fun h => hc.2 (by omega)⟩
+
+/-- The probe finds a blocked client whose peer has gone: it is dropped and unregistered everywhere at once. -/
+theorem InvF_reap_blocked (s : State) (c : Conn) (hI : InvF s) (hquiet : s.wakeQ = []) :
+    InvF { (setConn s c fun cs => { cs with gone := true, blocked := none }) with
+           registry := (setConn s c fun cs => { cs with gone := true, blocked := none }).registry.filter fun x => x.2.conn != c } :=
+  InvF_unreg c hI hquiet rfl rfl rfl rfl (fun c' h => by simp [setConn, h]) (by simp [setConn])
 
 end Ferrous.Blk
